@@ -58,6 +58,13 @@ pub enum E {
     MissingRule(u32, usize, Dp),
     ProfileRuleNotApplicable,
     Undefined,
+    /// only in EXPECTED sets of the reference pipelines: "some typed error; the statement does not say which"
+    Any,
+}
+
+/// does the observed result lie in the set the reference allows? (`Err(E::Any)` in the set admits every error)
+pub fn accepts<T: PartialEq>(want: &[Out<T>], got: &Out<T>) -> bool {
+    want.contains(got) || (matches!(got, Out::Err(_)) && want.iter().any(|w| matches!(w, Out::Err(E::Any))))
 }
 
 impl From<Error> for E {
